@@ -51,6 +51,9 @@ pub struct Recorder {
     rejected: BTreeSet<u32>,
     /// reference queue: order in which objects became idle (from return events only)
     refq: Vec<u32>,
+    /// what each task held after its previous step / the object it returns while a panic unwinds
+    last_held: Vec<Vec<u32>>,
+    unw_obj: Vec<u32>,
     calls_seen: usize,
     idle_before_walk: Vec<Vec<u32>>,
     keep: Vec<Vec<u32>>,
@@ -84,6 +87,8 @@ impl Recorder {
             cause: vec![],
             rejected: BTreeSet::new(),
             refq: vec![],
+            last_held: vec![],
+            unw_obj: vec![],
             calls_seen: 0,
             idle_before_walk: vec![],
             keep: vec![],
@@ -114,6 +119,8 @@ impl Recorder {
         self.cause = vec!["none"; n];
         self.rejected.clear();
         self.refq.clear();
+        self.last_held = vec![vec![]; w.ts.len()];
+        self.unw_obj = vec![0; w.ts.len()];
         self.calls_seen = 0;
         self.idle_before_walk = vec![vec![]; n];
         self.keep = vec![vec![]; n];
@@ -236,6 +243,17 @@ impl Recorder {
             "Cancel" | "GWaitCancel" => self.abandoned = true,
             _ => {}
         }
+        if let TState::AtPoint("m.ret.users") = &w.ts[t] {
+            if self.op[t] != "return" {
+                let now = w.held(t);
+                if let Some(gone) = self.last_held[t].iter().find(|o| !now.contains(o)) {
+                    self.unw_obj[t] = *gone;
+                }
+            }
+        }
+        for u in 0..w.ts.len() {
+            self.last_held[u] = w.held(u);
+        }
         if let Some(TState::AtPoint(site)) = before {
             match *site {
                 "m.resize.lock" => {
@@ -262,7 +280,9 @@ impl Recorder {
                     }
                 }
                 "m.ret.lock" => {
-                    let id = self.arg[t] as u32;
+                    // (a return that is part of an unwinding get() has no StartReturn step: which object it is
+                    //  was noted when the task arrived at m.ret.users)
+                    let id = if self.op[t] == "return" { self.arg[t] as u32 } else { self.unw_obj[t] };
                     // (an over-capacity return parks inside Manager::detach: the pool has let go of the object already)
                     let destroyed = w.truth().objs.get((id as usize).wrapping_sub(1)).map(|o| o.destroyed || o.detaching).unwrap_or(true);
                     if !destroyed {
@@ -378,7 +398,7 @@ impl Recorder {
             let first_of_chain = self.chain[t].is_empty() && matches!(st.a.as_str(), "GPop" | "GWaitPoll" | "GAcq" | "UDrop" | "Call" | "Resume");
             if *kind == CallKind::Create {
                 e["refqlen"] = json!(self.refq.len());
-            } else if *obj > 0 && first_of_chain {
+            } else if *obj > 0 && first_of_chain && !matches!(kind, CallKind::Pred | CallKind::Detach) {
                 // (-1: the reference queue is empty - whatever was popped is an object that should not be idle,
                 //  e.g. one that was given up earlier and must have been discarded)
                 let expect: i64 = if self.refq.is_empty() {
